@@ -9,7 +9,7 @@ def hooks_commits():
 
 CHECKS = {
  "C02": dict(level="exploration", technique="deterministic simulation: seeded schedule search over 1..16 simulated threads; returned bound vs independently evaluated true regret",
-   text="Every run solves a generated game with the unsampled method and vanilla parameters for one (T, threshold, K) inside one simulated execution (seeded scheduler, rayon stand-in) and compares the returned bound with the true regret of the returned profile computed by an independent best-response evaluator (own tree type; cross-checked against brute force over pure strategies on small games). The oracle is tight: observed regret/bound reaches 0.98, so a rescaling of the bound by <= 0.95, a dropped factor 2, or any lost / duplicated subtree under K > 1 is refuted within a quick batch.",
+   text="Every run solves a generated game (payoff magnitudes 1e-30..1e30, chance weights of any positive finite magnitude, chance outcomes down to 1e-18) with the unsampled method and vanilla parameters for one (T, threshold, K) inside one simulated execution (seeded scheduler, rayon stand-in) and compares the returned bound with the true regret of the returned profile computed by an independent best-response evaluator (own tree type; cross-checked against brute force over pure strategies on small games). The oracle is tight: observed regret/bound reaches 0.98, so a rescaling of the bound by <= 0.95, a dropped factor 2, or any lost / duplicated subtree under K > 1 is refuted within a quick batch.",
    note="Trusted: the independent evaluator (self-checked per run where affordable), the rayon stand-in, 1e-9*D tolerance.", ref="6 C02"),
  "C03": dict(level="exploration", technique="deterministic simulation: seeded schedule search over simulated thread counts; CFR-rate envelopes evaluated by an independent evaluator",
    text="Per run: one generated game (adversarial shape classes included) x preset x budget 2^0..2^12 x K (1..16 simulated threads up to T = 256) in one simulated execution; per-player bounds (vanilla) and the independently evaluated true regret (all presets) must lie inside the envelopes stated by the property. The game x budget sweep is plain seeded generation; the simulator contributes the thread-count / schedule dimension. A correct tree sits 3-25x inside the envelopes, so this check refutes gross convergence failures, not constant-factor errors (those are C02 / C08).",
@@ -18,26 +18,26 @@ CHECKS = {
    text="Per run: one generated game x (Sampled|External, preset) x one seeded sampling history, solved at T = 100, 400, 1600, 3200 (K simulated threads up to 400 iterations). Oracle A: true regret (independent evaluator) <= D*N*sqrt(A)/sqrt(T) at every checkpoint. Oracle B, per (method, preset) over the >= 150 games of the batch: median regret/D at 3200 < 1% and mean at 3200 < half the mean at 100. The claim is probabilistic; draws are pinned per VERIF_SEED and the observed maximum regret/envelope ratio is reported in evidence on every run.",
    note="Trusted: evaluator; a different VERIF_SEED is a different sample (margin measured: max regret/envelope 0.12-0.2).", ref="6 C04"),
  "C08": dict(level="exploration", technique="deterministic simulation: refinement against an executable reference model under pinned sampling histories (keyed RNG seam), 1..3 simulated threads",
-   text="Per run the library solves (method x parameter tuple incl. 0 and +-inf x T 0..50 x K 1..3) with its draws pinned and logged; an independent reference implementation of the documented algorithm (simultaneous-update DCFR, chance sampling, alternating external sampling; documented discount / averaging / regret-matching semantics; presets as documented tuples; None = documented default) computes the same iterates from the same keys. The complete draw log (site, pass, weights presented, index) and the returned strategies must agree (1e-7) on well-conditioned runs.",
-   note="Trusted: the reference model (independent in code, not authorship); undocumented tie-breaking is learned from the build; near ties / near-zero regrets are skipped (counted in evidence).", ref="6 C08"),
+   text="Per run the library solves (method x parameter tuple: presets, None, RegretParams::new over {0, +-inf, +-0.5, +-1.5, 2, +-1e3} and log-uniform exponents in +-[0.1, 1000] x T 0..50 x K 1..3) with its draws pinned and logged; an independent reference implementation of the documented algorithm (simultaneous-update DCFR, chance sampling, alternating external sampling; documented discount / averaging / regret-matching semantics; presets as documented tuples; None = documented default) computes the same iterates from the same keys. The complete draw log (site, pass, weights presented, index) and the returned strategies must agree (1e-7) on well-conditioned runs.",
+   note="Trusted: the reference model (independent in code, not authorship); undocumented tie-breaking is learned from the build; near ties / near-zero regrets are skipped (counted in evidence); the reference is computed in two legal orders of operations and a run on which they disagree is skipped as summation-order-sensitive.", ref="6 C08"),
  "C09": dict(level="exploration", technique="deterministic simulation: prefix-history refinement under pinned sampling histories; thresholds placed around every bound of the history; K = 1 bit-exact, K > 1 under seeded schedules",
-   text="Per run, inside one simulated execution: prefix solves with budgets 0..N give the bound history; solves with thresholds -1, 0, NaN, +inf and thresholds just below / at / just above bounds of the history must return exactly (bit for bit at one thread) the prefix run with budget t* = first iteration whose total bound is < r. Catches <= vs <, off-by-one stops, testing one player only, NaN / negative thresholds shortening a run, exceeding the budget.",
+   text="Per run, inside one simulated execution: prefix solves with budgets 0..N give the bound history; solves with thresholds -1, 0, NaN, +inf and thresholds just below / at / just above bounds of the history must return exactly (bit for bit at one thread) the prefix run with budget t* = first iteration whose total bound is < r. Every threshold that is reached within N iterations is also run with budget u64::MAX (unlimited) and N+1e9 and must give the same prefix. Catches <= vs <, off-by-one stops, testing one player only, NaN / negative / infinite thresholds mishandled, exceeding the budget, an unlimited budget that is not.",
    note="Trusted: keyed RNG makes a budget-t run a prefix of a budget-N run; K > 1 comparisons use C06 tolerances.", ref="6 C09"),
  "C10": dict(level="exploration", technique="deterministic simulation: observed sampling sites under a keyed / scripted RNG seam (input channel), reference draw log, Hoeffding-band frequencies",
    text="Observer runs: every sampling site of a solve is observed (hooks H3/H4): Full draws nothing, Sampled draws no player actions, one draw per (site, pass), chance weights presented = declared weights normalised, each player draw = inverse CDF of the presented weights at the keyed variate, whole draw log = documented algorithm's. Scripted runs: the private categorical sampler (H7) on a scripted RngCore over weight vectors of length 1..8 and variates incl. every cumulative boundary +-2 ulp. Frequency runs: 1e5 keyed draws through the real chance / opponent sampling code, Hoeffding band with failure probability 1e-12.",
    note="Trusted: SplitMix64 as uniform source; boundary cases within a few ulp accept either neighbour.", ref="6 C10"),
  "C15": dict(level="exploration", technique="deterministic simulation: the real main() inside a simulated execution (one process per run), seeded schedules and sampling histories; output judged by an independent evaluator",
-   text="Each run starts one `simcli` process: the repository's unmodified main() (argument parsing, input routing, parsers, solve, clip, JSON output) inside one simulated execution with the rayon stand-in, a seeded scheduler, keyed sampling and core-count override. Inputs are generated valid games written by the harness's own JSON-DSL / Gambit writers using the formats' freedom (constant sums != 0, interior payoffs, shared outcomes, unnamed infosets, rational / decimal probabilities, shuffled action lists, multi-byte names). Oracle: exit 0, exactly one result object, valid profiles over exactly the file's infosets and actions, every printed number = independent evaluation of the PRINTED strategies on the game as written (own payoffs; utilities add up to the constant), total regret = max.",
+   text="Each run starts one `simcli` process: the repository's unmodified main() (argument parsing, input routing, parsers, solve, clip, JSON output) inside one simulated execution with the rayon stand-in, a seeded scheduler, keyed sampling and core-count override. Inputs are generated valid games written by the harness's own JSON-DSL / Gambit writers using the formats' freedom (constant sums != 0, interior payoffs incl. non-zero-sum ones, outcomes shared and referred to by number only before or after their definition, unnamed infosets, names given at the first node only, chance infosets numbered from 0, rational / decimal probabilities, shuffled action lists, multi-byte names, misleading file extensions under an explicit --input-format, a pre-existing longer -o file). Oracle: the compact game built by the binary's own reader is structurally the file's game (tree, payoffs, names, probabilities and the partition of chance nodes into chance infosets); exit 0, exactly one result object, valid profiles over exactly the file's infosets and actions, every printed number = independent evaluation of the PRINTED strategies on the game as written (own payoffs; utilities add up to the constant), total regret = max.",
    note="Trusted: independent evaluator and writers; process start and the pipe/file carrying the input are outside the simulator (their content is decided by the driver, verdicts do not depend on timing).", ref="6 C15"),
  "C16": dict(level="exploration", technique="deterministic simulation with fault injection: real main() in a simulated execution vs in-process library under the same seeds; fault-injecting Read seam (chunking, EINTR, EIO, early EOF) on the binary's readers",
-   text="Five kinds of run: (a) the printed strategies of one simcli process equal Game::solve run in-process for the documented meaning of -m, -d, -t (0 = unlimited), -r, -p (0 = core count; the stand-in reports the pool size the program asked for) under the same sampling seed - bit-exact at one thread; (b) the same bytes through two routes (file/stdin, extension, --input-format, -o) give the identical object; (c) the binary's own readers called in-process on a seeded fault-injecting Read (chunks down to 1 byte, Interrupted between chunks, multi-byte UTF-8 split across chunks, hard error, early EOF): same game or rejection, never a wrong game; (d) JSON and Gambit encodings of one game give one solution; (e) clip: printed profile = own truncation of the library result iff its independently evaluated regret is strictly lower, always a valid profile.",
+   text="Five kinds of run: (a) the printed strategies of one simcli process equal Game::solve run in-process for the documented meaning of -m, -d, -t (0 = unlimited, also with thresholds that need thousands of iterations), -r, -p (0 = core count; the stand-in reports the pool size the program asked for) under the same sampling seed - bit-exact at one thread; (b) the same bytes through two routes (file/stdin, extension incl. a misleading one under an explicit format, --input-format, -o incl. a pre-existing longer file) give the identical object; (c) the binary's own readers called in-process on a seeded fault-injecting Read (chunks down to 1 byte, Interrupted between chunks, multi-byte UTF-8 split across chunks, hard error, early EOF): same game or rejection, never a wrong game; (d) JSON and Gambit encodings of one game give one solution; (e) clip: printed profile = own truncation of the library result iff its independently evaluated regret is strictly lower, always a valid profile.",
    note="Trusted: as C15; numbers parsed back from JSON are compared up to one ulp; K > 1 comparisons use the C06 tolerance and conditioning guard.", ref="6 C16"),
  "C17": dict(level="fault_enumeration", technique="deterministic simulation with fault injection: enumerated stored-file faults (every truncation offset, known-invalid corruptions per format and per contract rule, byte flips, bad UTF-8, read error) against the real readers and the real main()",
-   text="Fault kinds are enumerated round-robin over generated valid files: truncation at every byte offset (in-process through the format's reader and the auto reader) plus sampled offsets through the real process; empty/blank file; invalid UTF-8; real read error; 23 grammar-aware corruptions whose invalidity is known by construction (JSON field/type/prob faults, Gambit player count / constant sum / 1e400 / distribution / outcome / name clash, and every library contract rule in both encodings); byte flips with the weak invariant only. Strong oracle: exit != 0, empty stdout, no -o file, stderr names a documented category. Weak invariant: never a result and a failure; exit 0 implies one complete valid result object.",
+   text="Fault kinds are enumerated round-robin over generated valid files: truncation at every byte offset and a hard I/O error after every byte offset (in-process through the format's reader and the auto reader, with EINTR and chunking) plus sampled offsets through the real process; empty/blank file; invalid UTF-8; real read error (directory); a pre-existing -o file that must stay untouched; 25 grammar-aware corruptions whose invalidity is known by construction (JSON field/type/prob faults, JSON all weights of a chance node negative, Gambit player count / constant sum far beyond and just beyond the documented tolerance / 1e400 / distribution / outcome / name clash, and every library contract rule in both encodings); byte flips with the weak invariant only. Strong oracle: exit != 0, empty stdout, no -o file, stderr names a documented category. Weak invariant: never a result and a failure; exit 0 implies one complete valid result object.",
    note="Trusted: the construction of each known-invalid corruption; documented categories = README anchors plus the two documented Gambit messages. Fault kinds and truncation offsets are enumerated; the files they are applied to are sampled.", ref="6 C17"),
  "C05": dict(level="exploration", technique="deterministic simulation with fault injection: seeded search over configurations x schedules with injected pool-build failures, core-count faults, oversubscription and starved workers; deadlock / step-budget / panic detection",
-   text="Every run executes one seeded point of the full configuration product (methods, RegretParams::new tuples incl. +-inf and +-1e3, presets, None, T incl. 0, thresholds incl. negative/NaN/inf, num_threads incl. 0 and the overflow boundary) inside one simulated execution. Injected faults: thread-pool construction failure, too many threads, unknown / overridden core count, starved worker (PCT schedule), fewer tasks than workers, stub coins. Oracle: no panic in any task, no deadlock, step budget respected, Ok / ThreadOverflow / ThreadSpawnError exactly where expected (1 thread never errors), well-formed profile and bounds on Ok, and after an injected failure the retried call succeeds and equals a fault-free run. Contract-edge trees (own action forgotten; one action here, several there) are fed to from_root as well. Fault kinds are enumerated; schedules and inputs are sampled.",
-   note="Trusted: stand-in fails pool builds above 4096 threads as the real pool does in this sandbox; allocation failure not modelled; hang = step budget on decision-node visits + shuttle deadlock detector.", ref="6 C05"),
+   text="Every run executes one seeded point of the full configuration product (methods, RegretParams::new tuples incl. +-inf, +-1e3 and log-uniform exponents in +-[0.1, 1000], presets, None, T incl. 0 and u64::MAX, thresholds incl. negative/NaN/inf, num_threads incl. 0 and the overflow boundary, payoff magnitudes 1e-300..1e250, chance weights scaled by 1e-300..8e307) inside one simulated execution. Injected faults: thread-pool construction failure, too many threads, unknown / overridden core count, starved worker (PCT schedule), fewer tasks than workers, stub coins. Oracle: no panic in any task, no deadlock, step budget respected, Ok / ThreadOverflow / ThreadSpawnError exactly where expected (1 thread never errors), well-formed profile and bounds on Ok, and after an injected failure the retried call succeeds and equals a fault-free run. Contract-edge trees (own action forgotten; one action here, several there) are fed to from_root as well. Fault kinds are enumerated; schedules and inputs are sampled.",
+   note="Trusted: stand-in fails pool builds above 4096 threads as the real pool does in this sandbox; allocation failure not modelled; hang = step budget on decision-node visits + shuttle deadlock detector + a 600 s wall-clock watchdog for loops that reach neither (never a timing oracle).", ref="6 C05"),
  "C06": dict(level="exploration", technique="deterministic simulation: seeded schedule search (shuttle, own recording scheduler) over a rayon stand-in; K-thread vs 1-thread result",
    text="Seeded search over thread schedules: every run executes the real solver sources with 1 thread and with K simulated threads inside one simulated execution whose scheduler (uniform random / PCT priorities / non-preemptive, chosen per run) decides every interleaving at every mutex, atomic float update, spawn and join, and whose rayon stand-in draws worker count and item order from the same recorded stream. Strategies and bounds must agree within 1e-7 / 1e-9*D*(N+1) on well-conditioned cases. Sampling of schedules and games: evidence, not proof.",
    note="Trusted: the rayon stand-in's over-approximation of rayon's contract (DESIGN 2.2, cross-checked against the real pool in 8.3), shuttle's sequentially consistent model of atomics, the conditioning guard (DESIGN 5.3).", ref="6 C06"),
